@@ -52,7 +52,11 @@ fn history_body(src: &mut Src, st: &mut Stats) -> CaseResult {
                 let a = gen_sentence(src, st, 2).unwrap_or_else(|| "a".into());
                 Some(mutate(&a, "b", src).0)
             }
-            4 => Some(src.pick(&["s == 'a b'", "o.\"k k\"", "strs[?@ == 'a b']", "`{\"a b\": 1}`.\"a b\"", "join(' , ', strs)", "nope(@)", "abs('x')", "nums[::0]", "sort_by(objs, &to_array(n))", "map(&abs(s), objs)", "objs[*].abs(s)", "length(n)", "sum(strs)"]).to_string()),
+            4 if src.flip() => Some(
+                // no data references at all: the result may still depend on the document (a multi-select on null is null)
+                src.pick(&["[length('abc')]", "{k: sort(`[3,1,2]`)}", "[abs(`-1`), 'x']", "to_array(`1`)", "not_null(`null`, 'd')", "[`1`, `2`] | [0]", "'lit'", "{a: 'x', b: length(`[1]`)}", "[[length('ab')]]", "length('x') && [type(`1`)]"]).to_string(),
+            ),
+            4 => Some(src.pick(&["sort_by(objs, &m)", "max_by(objs, &m)", "min_by(objs, &m)", "sort_by(objs, &m) | [0]", "s == 'a b'", "o.\"k k\"", "strs[?@ == 'a b']", "`{\"a b\": 1}`.\"a b\"", "join(' , ', strs)", "nope(@)", "abs('x')", "nums[::0]", "sort_by(objs, &to_array(n))", "map(&abs(s), objs)", "objs[*].abs(s)", "length(n)", "sum(strs)"]).to_string()),
             _ => Some(src.pick(&["sort_by(objs, &k)", "max_by(objs, &n)", "map(&length(s), objs)", "objs[?n > `0`].s", "nums[::-1]", "merge(o, o2)", "@", "keys(o)"]).to_string()),
         };
         let mut e = e.unwrap_or_else(|| "@".to_string());
@@ -66,7 +70,38 @@ fn history_body(src: &mut Src, st: &mut Stats) -> CaseResult {
     }
     let mut docs: Vec<J> = vec![];
     for i in 0..5 {
-        docs.push(if i < 3 { schema_doc(src) } else { gen_doc(src, &DocOpts::default()) });
+        docs.push(match i {
+            0 | 1 => schema_doc(src),
+            2 => {
+                // a big table: at least 64 rows (size thresholds), some rows with a string `m`
+                let mut d = schema_doc(src);
+                if let J::Obj(m) = &mut d {
+                    let n = 64 + src.below(80);
+                    let flip_at = 1 + src.below(n - 1);
+                    let rows: Vec<J> = (0..n)
+                        .map(|i| {
+                            let mut o = std::collections::BTreeMap::new();
+                            o.insert("id".to_string(), J::int(i as i64));
+                            o.insert("k".to_string(), J::int((i % 3) as i64));
+                            o.insert("n".to_string(), J::int((n - i) as i64));
+                            o.insert("s".to_string(), J::Str(format!("s{}", i % 7)));
+                            o.insert("t".to_string(), J::Arr(vec![]));
+                            o.insert("m".to_string(), if i == flip_at { J::s("mixed") } else { J::int(i as i64) });
+                            J::Obj(o)
+                        })
+                        .collect();
+                    m.insert("objs".to_string(), J::Arr(rows));
+                }
+                d
+            }
+            3 => match src.below(4) {
+                0 => J::Null,
+                1 => J::Arr(vec![]),
+                2 => J::Obj(Default::default()),
+                _ => gen_doc(src, &DocOpts::default()),
+            },
+            _ => gen_doc(src, &DocOpts::default()),
+        });
     }
     let doc_texts: Vec<String> = docs.iter().map(|d| d.to_json()).collect();
     let shared: Vec<jmespath::Rcvar> = doc_texts.iter().map(|t| jmespath::Rcvar::new(jmespath::Variable::from_json(t).unwrap())).collect();
